@@ -10,7 +10,7 @@ variable {D R : Type}
 theorem upd_other (f : Nat → α) {k i : Nat} (v : α) (h : i ≠ k) : upd f k v i = f i := by simp [upd, h]
 
 /-- sequential meaning of a log: starting from `d`, every entry returned what its delegate returns on the data
-produced by the entries before it, and the data at the end is `dEnd` -/
+produced by the entries before it (and on the operand snapshot it recorded), and the data at the end is `dEnd` -/
 def Lin (d : D) : List (Entry D R) → D → Prop
   | [], dEnd => d = dEnd
   | e :: es, dEnd => e.r = (e.call.f d e.op).2 ∧ Lin (e.call.f d e.op).1 es dEnd
@@ -29,6 +29,7 @@ def pending (s : State D R) (t : Nat) : List (Call D R) :=
   | .written => (s.th t).todo.tail
   | _ => (s.th t).todo
 
+/-- the entries of thread `t` -/
 def mine (t : Nat) (log : List (Entry D R)) : List (Entry D R) := log.filter (fun e => e.tid == t)
 
 theorem mine_snoc_same (t : Nat) (log : List (Entry D R)) (e : Entry D R) (h : e.tid = t) :
@@ -37,168 +38,543 @@ theorem mine_snoc_same (t : Nat) (log : List (Entry D R)) (e : Entry D R) (h : e
 theorem mine_snoc_other (t : Nat) (log : List (Entry D R)) (e : Entry D R) (h : e.tid ≠ t) :
     mine t (log ++ [e]) = mine t log := by simp [mine, List.filter_append, h]
 
-/-- thread `t` is inside a method body -/
-def inCS (s : State D R) (t : Nat) : Prop := (s.th t).pc ≠ .start
+/-- the entries whose receiver is wrapper `m` -/
+def onRecv (m : Nat) (log : List (Entry D R)) : List (Entry D R) := log.filter (fun e => e.call.recv == m)
 
-/-- callers of ONE wrapper `w`, operands are not wrappers, every method body holds the lock -/
-def Single (w : Nat) (c : Call D R) : Prop := c.recv = w ∧ c.operand = none ∧ c.locked = true
+theorem onRecv_snoc_same (m : Nat) (log : List (Entry D R)) (e : Entry D R) (h : e.call.recv = m) :
+    onRecv m (log ++ [e]) = onRecv m log ++ [e] := by simp [onRecv, List.filter_append, h]
 
-structure LinInv (w : Nat) (d0 : D) (progs : Nat → List (Call D R)) (s : State D R) : Prop where
-  single : ∀ t, ∀ c ∈ (s.th t).todo, Single w c
-  pcs : ∀ t, (s.th t).pc = .start ∨ (s.th t).pc = .held 0 ∨ (s.th t).pc = .readDone ∨ (s.th t).pc = .written
-  holds : ∀ t, inCS s t → s.holder w = some t
-  fresh : ∀ t, (s.th t).pc = .readDone → (s.th t).loc = s.data w
-  lin : Lin d0 s.log (s.data w)
-  order : ∀ t, (mine t s.log).map (·.call) ++ pending s t = progs t
-  res : ∀ t, (s.th t).res = (mine t s.log).map (·.r)
+theorem onRecv_snoc_other (m : Nat) (log : List (Entry D R)) (e : Entry D R) (h : e.call.recv ≠ m) :
+    onRecv m (log ++ [e]) = onRecv m log := by simp [onRecv, List.filter_append, h]
 
-theorem linInv_init (w : Nat) (d0 : Nat → D) (dflt : D) (progs : Nat → List (Call D R))
-    (h : ∀ t, ∀ c ∈ progs t, Single w c) : LinInv w (d0 w) progs (init d0 dflt progs) where
-  single := h
+/-- the live protocol: a wrapper operand is always snapshotted before the receiver's lock is taken -/
+def Live (c : Call D R) : Prop := c.operand ≠ none → c.snapshot = true
+
+theorem Live.rounds {c : Call D R} (h : Live c) : c.rounds = 0 := by
+  unfold Call.rounds
+  cases ho : c.operand with
+  | none => rfl
+  | some o => simp [h (by simp [ho])]
+
+theorem Live.snapTarget {c : Call D R} (h : Live c) : c.snapTarget = c.operand := by
+  unfold Call.snapTarget
+  cases ho : c.operand with
+  | none => simp
+  | some o => simp [h (by simp [ho])]
+
+theorem operand_of_snapTarget {c : Call D R} {o : Nat} (h : c.snapTarget = some o) : c.operand = some o := by
+  unfold Call.snapTarget at h
+  split at h
+  · exact h
+  · cases h
+
+/-- the program counters of the live protocol -/
+def OkPc (pc : Pc) : Prop :=
+  pc = .start ∨ pc = .snapHeld ∨ pc = .snapped ∨ pc = .held 0 ∨ pc = .readDone ∨ pc = .written
+
+/-- inside the method body (the receiver's lock is held) -/
+def InBody (pc : Pc) : Prop := pc = .held 0 ∨ pc = .readDone ∨ pc = .written
+
+theorem acquireRecv_some {s s' : State D R} {t : Nat} {T : Thread D R} {c : Call D R}
+    (h : acquireRecv s t T c = some s') :
+    (c.locked = true ∧ s.holder c.recv = none ∧
+      s' = { s with holder := upd s.holder c.recv (some t), th := upd s.th t { T with pc := .held c.rounds } }) ∨
+    (c.locked = false ∧ s' = { s with th := upd s.th t { T with pc := .held c.rounds } }) := by
+  unfold acquireRecv at h
+  split at h
+  · rename_i hl
+    split at h
+    · rename_i hf; exact Or.inl ⟨hl, hf, (Option.some.inj h).symm⟩
+    · cases h
+  · rename_i hl
+    exact Or.inr ⟨by simpa using hl, (Option.some.inj h).symm⟩
+
+theorem reach_of_runSched {s0 : State D R} : ∀ (sched : List Nat) {s s' : State D R}, Reach s0 s → runSched s sched = some s' → Reach s0 s'
+  | [], s, s', hr, h => by simp only [runSched] at h; exact (Option.some.inj h) ▸ hr
+  | t :: ts, s, s', hr, h => by
+    simp only [runSched] at h
+    split at h
+    · rename_i s1 hs1
+      exact reach_of_runSched ts (Reach.step t hr hs1) h
+    · cases h
+
+/-! ### deadlock freedom of the live protocol, for arbitrary (also wrapper, also self) operands -/
+
+structure DfInv (n : Nat) (s : State D R) : Prop where
+  live : ∀ t, ∀ c ∈ (s.th t).todo, Live c
+  idle : ∀ t, n ≤ t → (s.th t).todo = []
+  pcs : ∀ t, OkPc (s.th t).pc
+  /-- whoever holds a mutex is in a section in which it never waits: reading the operand it locked, or inside the
+  body of the receiver it locked -/
+  owner : ∀ m t, s.holder m = some t → ∃ c rest, (s.th t).todo = c :: rest ∧
+    (((s.th t).pc = .snapHeld ∧ c.operand = some m ∧ c.opLocked = true) ∨
+     (InBody (s.th t).pc ∧ c.recv = m ∧ c.locked = true))
+
+theorem dfInv_init (n : Nat) (d0 : Nat → D) (dflt : D) (progs : Nat → List (Call D R))
+    (hlive : ∀ t, ∀ c ∈ progs t, Live c) (hidle : ∀ t, n ≤ t → progs t = []) :
+    DfInv n (init d0 dflt progs) where
+  live := hlive
+  idle := hidle
   pcs := fun _ => Or.inl rfl
-  holds := fun t ht => absurd rfl ht
-  fresh := fun t ht => by simp [init] at ht
-  lin := rfl
-  order := fun t => by simp [init, mine, pending]
-  res := fun t => by simp [init, mine]
+  owner := fun m t h => by simp [init] at h
 
-theorem mutex_of_holds {w : Nat} {s : State D R} (h : ∀ t, inCS s t → s.holder w = some t) {t t' : Nat}
-    (ht : inCS s t) (ht' : inCS s t') : t = t' := by
-  have := h t ht; have := h t' ht'; simp_all
+/-- a thread that holds a lock (or is about to release one) can always move -/
+theorem enabled_busy {s : State D R} {t : Nat} {c : Call D R} {rest : List (Call D R)}
+    (htodo : (s.th t).todo = c :: rest)
+    (hpc : (s.th t).pc = .snapHeld ∨ InBody (s.th t).pc) : (step s t).isSome = true := by
+  unfold step
+  simp only [htodo]
+  rcases hpc with h | h | h | h <;> rw [h] <;> simp only <;> (try split) <;> rfl
 
-theorem linInv_step {w : Nat} {d0 : D} {progs : Nat → List (Call D R)} {s s' : State D R} {t : Nat}
-    (inv : LinInv w d0 progs s) (hs : step s t = some s') : LinInv w d0 progs s' := by
+/-- rebuild the invariant after thread `t` (whose current call is `c`) moved to record `T'`, the mutex map to `h'` -/
+theorem dfInv_frame {n : Nat} {s : State D R} {t : Nat} {c : Call D R} {rest : List (Call D R)}
+    (inv : DfInv n s) (htodo : (s.th t).todo = c :: rest)
+    (T' : Thread D R) (h' : Nat → Option Nat) (dat : Nat → D) (lg : List (Entry D R))
+    (hsub : ∀ c' ∈ T'.todo, c' ∈ (s.th t).todo) (hpc : OkPc T'.pc)
+    (hothers : ∀ m t', t' ≠ t → h' m = some t' → s.holder m = some t')
+    (hself : ∀ m, h' m = some t → ∃ c1 rest1, T'.todo = c1 :: rest1 ∧
+      ((T'.pc = .snapHeld ∧ c1.operand = some m ∧ c1.opLocked = true) ∨ (InBody T'.pc ∧ c1.recv = m ∧ c1.locked = true))) :
+    DfInv n { holder := h', data := dat, th := upd s.th t T', log := lg } := by
+  refine ⟨?_, ?_, ?_, ?_⟩
+  · intro t' c' hc'
+    by_cases e : t' = t
+    · subst e; simp only [upd_same] at hc'; exact inv.live t' c' (hsub c' hc')
+    · simp only [upd_other _ _ e] at hc'; exact inv.live t' c' hc'
+  · intro t' hn
+    by_cases e : t' = t
+    · subst e; have := inv.idle t' hn; rw [htodo] at this; cases this
+    · simp only [upd_other _ _ e]; exact inv.idle t' hn
+  · intro t'
+    by_cases e : t' = t
+    · subst e; simp only [upd_same]; exact hpc
+    · simp only [upd_other _ _ e]; exact inv.pcs t'
+  · intro m t' hm
+    by_cases e : t' = t
+    · subst e; simp only [upd_same]; exact hself m hm
+    · simp only [upd_other _ _ e]; exact inv.owner m t' (hothers m t' e hm)
+
+theorem dfInv_acquire {n : Nat} {s s' : State D R} {t : Nat} {c : Call D R} {rest : List (Call D R)}
+    (inv : DfInv n s) (htodo : (s.th t).todo = c :: rest)
+    (hpc : (s.th t).pc = .start ∨ (s.th t).pc = .snapped)
+    (hs : acquireRecv s t (s.th t) c = some s') : DfInv n s' := by
+  have hlive : Live c := inv.live t c (by rw [htodo]; exact List.mem_cons_self)
+  have notOwner : ∀ m, s.holder m ≠ some t := by
+    intro m h
+    obtain ⟨_, _, _, h1 | h1⟩ := inv.owner m t h
+    · rcases hpc with h2 | h2 <;> rw [h2] at h1 <;> cases h1.1
+    · rcases hpc with h2 | h2 <;> rw [h2] at h1 <;> rcases h1.1 with h3 | h3 | h3 <;> cases h3
+  rcases acquireRecv_some hs with ⟨hl, hfree, rfl⟩ | ⟨hl, rfl⟩
+  · refine dfInv_frame inv htodo _ _ _ _ (fun c' hc' => hc') (by simp [OkPc, hlive.rounds]) ?_ ?_
+    · intro m t' hne hm
+      by_cases em : m = c.recv
+      · subst em; simp only [upd_same] at hm; exact absurd (Option.some.inj hm).symm hne
+      · simpa only [upd_other _ _ em] using hm
+    · intro m hm
+      by_cases em : m = c.recv
+      · subst em
+        exact ⟨c, rest, htodo, Or.inr ⟨Or.inl (by simp [hlive.rounds]), rfl, hl⟩⟩
+      · simp only [upd_other _ _ em] at hm; exact absurd hm (notOwner m)
+  · refine dfInv_frame inv htodo _ _ _ _ (fun c' hc' => hc') (by simp [OkPc, hlive.rounds]) (fun m t' _ hm => hm) ?_
+    intro m hm; exact absurd hm (notOwner m)
+
+theorem dfInv_step {n : Nat} {s s' : State D R} {t : Nat} (inv : DfInv n s) (hs : step s t = some s') : DfInv n s' := by
   unfold step at hs
   simp only at hs
   split at hs
   · cases hs
   · rename_i c rest htodo
-    have hc : Single w c := inv.single t c (by rw [htodo]; exact List.mem_cons_self)
-    obtain ⟨hrecv, hop, hlock⟩ := hc
-    have others : ∀ t', t' ≠ t → inCS s t → (s.th t').pc = .start := by
-      intro t' hne hin
-      rcases Classical.em ((s.th t').pc = .start) with h | h
-      · exact h
-      · exact absurd (mutex_of_holds inv.holds (t := t') (t' := t) h hin) hne
+    have hlive : Live c := inv.live t c (by rw [htodo]; exact List.mem_cons_self)
     split at hs
     · -- start
       rename_i hpc
-      rw [hlock] at hs
-      simp only [if_true] at hs
+      have notOwner : ∀ m, s.holder m ≠ some t := by
+        intro m h
+        obtain ⟨_, _, _, h1 | h1⟩ := inv.owner m t h
+        · rw [hpc] at h1; cases h1.1
+        · rw [hpc] at h1; rcases h1.1 with h3 | h3 | h3 <;> cases h3
       split at hs
-      · rename_i hfree
+      · rename_i o hsnap
+        have hop := operand_of_snapTarget hsnap
+        split at hs
+        · rename_i hol
+          split at hs
+          · rename_i hfree
+            have hs := Option.some.inj hs
+            subst hs
+            refine dfInv_frame inv htodo _ _ _ _ (fun c' hc' => hc') (by simp [OkPc]) ?_ ?_
+            · intro m t' hne hm
+              by_cases em : m = o
+              · subst em; simp only [upd_same] at hm; exact absurd (Option.some.inj hm).symm hne
+              · simpa only [upd_other _ _ em] using hm
+            · intro m hm
+              by_cases em : m = o
+              · subst em; exact ⟨c, rest, htodo, Or.inl ⟨rfl, hop, hol⟩⟩
+              · simp only [upd_other _ _ em] at hm; exact absurd hm (notOwner m)
+          · cases hs
+        · have hs := Option.some.inj hs
+          subst hs
+          refine dfInv_frame inv htodo _ _ _ _ (fun c' hc' => hc') (by simp [OkPc]) (fun m t' _ hm => hm) ?_
+          intro m hm; exact absurd hm (notOwner m)
+      · exact dfInv_acquire inv htodo (Or.inl hpc) hs
+    · -- snapHeld: release the operand
+      rename_i hpc
+      have ownerHere : ∀ m, s.holder m = some t → c.operand = some m ∧ c.opLocked = true := by
+        intro m h
+        obtain ⟨c1, rest1, h0, h1 | h1⟩ := inv.owner m t h
+        · rw [htodo] at h0; injection h0 with hc _; subst hc; exact ⟨h1.2.1, h1.2.2⟩
+        · rw [hpc] at h1; rcases h1.1 with h3 | h3 | h3 <;> cases h3
+      split at hs
+      · rename_i o hsnap
+        have hop := operand_of_snapTarget hsnap
         have hs := Option.some.inj hs
         subst hs
-        have hr0 : c.rounds = 0 := by simp [Call.rounds, hop]
-        have allStart : ∀ t', (s.th t').pc = .start := by
-          intro t'
-          rcases Classical.em ((s.th t').pc = .start) with h | h
-          · exact h
-          · have := inv.holds t' h; rw [hrecv] at hfree; rw [hfree] at this; cases this
-        refine ⟨?_, ?_, ?_, ?_, ?_, ?_, ?_⟩
-        · intro t' c' hc'
-          by_cases e : t' = t
-          · subst e; simp only [upd_same] at hc'; rw [htodo] at hc'; exact inv.single t' c' (by rw [htodo]; exact hc')
-          · simp only [upd_other _ _ e] at hc'; exact inv.single t' c' hc'
-        · intro t'
-          by_cases e : t' = t
-          · subst e; simp [upd_same, hr0]
-          · simp only [upd_other _ _ e]; exact inv.pcs t'
-        · intro t' hin
-          by_cases e : t' = t
-          · subst e; rw [hrecv]; simp
-          · simp only [inCS, upd_other _ _ e] at hin; exact absurd (allStart t') hin
-        · intro t' hrd
-          by_cases e : t' = t
-          · subst e; simp only [upd_same, hr0] at hrd; exact Pc.noConfusion hrd
-          · simp only [upd_other _ _ e] at hrd; rw [allStart t'] at hrd; exact Pc.noConfusion hrd
-        · exact inv.lin
-        · intro t'
-          by_cases e : t' = t
-          · subst e
-            have := inv.order t'
-            simp only [pending, hpc, htodo] at this
-            simp only [pending, upd_same, hr0, htodo]
-            exact this
-          · have := inv.order t'
-            simp only [pending, upd_other _ _ e]
-            exact this
-        · intro t'
-          by_cases e : t' = t
-          · subst e; simp only [upd_same]; exact inv.res t'
-          · simp only [upd_other _ _ e]; exact inv.res t'
-      · cases hs
-    · -- held (k+1): excluded
+        refine dfInv_frame inv htodo _ _ _ _ (fun c' hc' => hc') (by simp [OkPc]) ?_ ?_
+        · intro m t' hne hm
+          split at hm
+          · by_cases em : m = o
+            · subst em; simp [upd_same] at hm
+            · simpa only [upd_other _ _ em] using hm
+          · exact hm
+        · intro m hm
+          exfalso
+          split at hm
+          · by_cases em : m = o
+            · subst em; simp [upd_same] at hm
+            · simp only [upd_other _ _ em] at hm
+              have := (ownerHere m hm).1; rw [hop] at this; exact em (Option.some.inj this).symm
+          · rename_i hol
+            exact hol (ownerHere m hm).2
+      · rename_i hsnap
+        have hs := Option.some.inj hs
+        subst hs
+        refine dfInv_frame inv htodo _ _ _ _ (fun c' hc' => hc') (by simp [OkPc]) (fun m t' _ hm => hm) ?_
+        intro m hm
+        exfalso
+        have := (ownerHere m hm).1
+        rw [hlive.snapTarget, this] at hsnap
+        cases hsnap
+    · -- snapped
+      rename_i hpc
+      exact dfInv_acquire inv htodo (Or.inr hpc) hs
+    · -- held (k+1): not a state of the live protocol
       rename_i k hpc
-      rcases inv.pcs t with h | h | h | h <;> rw [hpc] at h <;> first | exact Pc.noConfusion h | (injection h with h; omega)
-    · -- inOp: excluded
+      rcases inv.pcs t with h | h | h | h | h | h <;> rw [hpc] at h <;> first | cases h | (injection h with h; omega)
+    · -- inOp
       rename_i k hpc
-      rcases inv.pcs t with h | h | h | h <;> rw [hpc] at h <;> exact Pc.noConfusion h
+      rcases inv.pcs t with h | h | h | h | h | h <;> rw [hpc] at h <;> cases h
     · -- held 0: read
       rename_i hpc
       have hs := Option.some.inj hs
       subst hs
-      have hin : inCS s t := by simp [inCS, hpc]
-      refine ⟨?_, ?_, ?_, ?_, ?_, ?_, ?_⟩
-      · intro t' c' hc'
-        by_cases e : t' = t
-        · subst e; simp only [upd_same] at hc'; exact inv.single t' c' hc'
-        · simp only [upd_other _ _ e] at hc'; exact inv.single t' c' hc'
-      · intro t'
-        by_cases e : t' = t
-        · subst e; simp [upd_same]
-        · simp only [upd_other _ _ e]; exact inv.pcs t'
-      · intro t' hin'
-        by_cases e : t' = t
-        · subst e; exact inv.holds t' hin
-        · simp only [inCS, upd_other _ _ e] at hin'; exact inv.holds t' hin'
-      · intro t' hrd
-        by_cases e : t' = t
-        · subst e; simp only [upd_same, hrecv]
-        · simp only [upd_other _ _ e] at hrd; rw [others t' e hin] at hrd; exact Pc.noConfusion hrd
-      · exact inv.lin
-      · intro t'
-        by_cases e : t' = t
-        · subst e
-          have := inv.order t'
-          simp only [pending, hpc] at this
-          simp only [pending, upd_same]
-          exact this
-        · have := inv.order t'
-          simp only [pending, upd_other _ _ e]
-          exact this
-      · intro t'
-        by_cases e : t' = t
-        · subst e; simp only [upd_same]; exact inv.res t'
-        · simp only [upd_other _ _ e]; exact inv.res t'
+      refine dfInv_frame inv htodo _ _ _ _ (fun c' hc' => hc') (by simp [OkPc]) (fun m t' _ hm => hm) ?_
+      intro m hm
+      obtain ⟨c1, rest1, h0, h1 | h1⟩ := inv.owner m t hm
+      · rw [hpc] at h1; cases h1.1
+      · exact ⟨c1, rest1, h0, Or.inr ⟨Or.inr (Or.inl rfl), h1.2⟩⟩
     · -- readDone: write
       rename_i hpc
       have hs := Option.some.inj hs
       subst hs
-      have hin : inCS s t := by simp [inCS, hpc]
-      have hfresh := inv.fresh t hpc
-      refine ⟨?_, ?_, ?_, ?_, ?_, ?_, ?_⟩
+      refine dfInv_frame inv htodo _ _ _ _ (fun c' hc' => hc') (by simp [OkPc]) (fun m t' _ hm => hm) ?_
+      intro m hm
+      obtain ⟨c1, rest1, h0, h1 | h1⟩ := inv.owner m t hm
+      · rw [hpc] at h1; cases h1.1
+      · exact ⟨c1, rest1, h0, Or.inr ⟨Or.inr (Or.inr rfl), h1.2⟩⟩
+    · -- written: release the receiver
+      rename_i hpc
+      have hs := Option.some.inj hs
+      subst hs
+      refine dfInv_frame inv htodo _ _ _ _ (fun c' hc' => by rw [htodo]; exact List.mem_cons_of_mem _ hc') (by simp [OkPc]) ?_ ?_
+      · intro m t' hne hm
+        split at hm
+        · by_cases em : m = c.recv
+          · subst em; simp [upd_same] at hm
+          · simpa only [upd_other _ _ em] using hm
+        · exact hm
+      · intro m hm
+        exfalso
+        have hold : s.holder m = some t ∧ (c.locked = true → m ≠ c.recv) := by
+          split at hm
+          · by_cases em : m = c.recv
+            · subst em; simp [upd_same] at hm
+            · simp only [upd_other _ _ em] at hm; exact ⟨hm, fun _ => em⟩
+          · rename_i hl; exact ⟨hm, fun h => absurd h hl⟩
+        obtain ⟨c1, rest1, h0, h1 | h1⟩ := inv.owner m t hold.1
+        · rw [hpc] at h1; cases h1.1
+        · rw [htodo] at h0; injection h0 with hc _; subst hc
+          exact hold.2 h1.2.2 h1.2.1.symm
+
+theorem dfInv_reach {n : Nat} {d0 : Nat → D} {dflt : D} {progs : Nat → List (Call D R)}
+    (hlive : ∀ t, ∀ c ∈ progs t, Live c) (hidle : ∀ t, n ≤ t → progs t = [])
+    {s : State D R} (hr : Reach (init d0 dflt progs) s) : DfInv n s := by
+  induction hr with
+  | refl => exact dfInv_init n d0 dflt progs hlive hidle
+  | step t _ hs ih => exact dfInv_step ih hs
+
+/-- no hold-and-wait: whenever some thread still has work, some thread has an enabled step -/
+theorem not_deadlocked_of_inv {n : Nat} {s : State D R} (inv : DfInv n s) : deadlocked n s = false := by
+  cases hd : deadlocked n s
+  · rfl
+  · exfalso
+    simp only [deadlocked, Bool.and_eq_true, List.any_eq_true, List.all_eq_true, List.mem_range] at hd
+    obtain ⟨⟨t, htn, hunf⟩, hall⟩ := hd
+    simp only [unfinished, Bool.not_eq_true', List.isEmpty_eq_false_iff] at hunf
+    obtain ⟨c, rest, htodo⟩ := List.exists_cons_of_ne_nil hunf
+    -- the owner of any mutex can move, so nobody waiting for a mutex proves a deadlock
+    have ownerMoves : ∀ m t', s.holder m = some t' → False := by
+      intro m t' hown
+      obtain ⟨c', rest', h1, h2⟩ := inv.owner m t' hown
+      have ht'n : t' < n := by
+        rcases Nat.lt_or_ge t' n with h | h
+        · exact h
+        · have := inv.idle t' h; rw [h1] at this; cases this
+      have hen := enabled_busy h1 (h2.elim (fun h => Or.inl h.1) (fun h => Or.inr h.1))
+      have hb' := hall t' ht'n
+      simp only [blocked, Option.isNone_iff_eq_none] at hb'
+      rw [hb'] at hen
+      cases hen
+    have hb := hall t htn
+    simp only [blocked, Option.isNone_iff_eq_none] at hb
+    have acq : acquireRecv s t (s.th t) c = none → False := by
+      intro h
+      unfold acquireRecv at h
+      split at h
+      · split at h
+        · cases h
+        · rename_i t' hown; exact ownerMoves _ t' hown
+      · cases h
+    rcases inv.pcs t with hpc | hpc | hpc | hpc | hpc | hpc
+    · unfold step at hb
+      simp only [htodo, hpc] at hb
+      split at hb
+      · split at hb
+        · split at hb
+          · cases hb
+          · rename_i t' hown; exact ownerMoves _ t' hown
+        · cases hb
+      · exact acq hb
+    · have hen := enabled_busy htodo (Or.inl hpc); rw [hb] at hen; cases hen
+    · unfold step at hb
+      simp only [htodo, hpc] at hb
+      exact acq hb
+    · have hen := enabled_busy htodo (Or.inr (Or.inl hpc)); rw [hb] at hen; cases hen
+    · have hen := enabled_busy htodo (Or.inr (Or.inr (Or.inl hpc))); rw [hb] at hen; cases hen
+    · have hen := enabled_busy htodo (Or.inr (Or.inr (Or.inr hpc))); rw [hb] at hen; cases hen
+
+/-! ### linearizability of the live protocol, for arbitrary (also wrapper, also self) operands -/
+
+/-- a call of the live protocol as lock.go with hooks/C13-fix2.patch makes it (T-tie table) -/
+def Good (c : Call D R) : Prop := Live c ∧ c.locked = true ∧ c.opLocked = true
+
+structure LinInv (d0 : Nat → D) (progs : Nat → List (Call D R)) (s : State D R) : Prop where
+  good : ∀ t, ∀ c ∈ (s.th t).todo, Good c
+  pcs : ∀ t, OkPc (s.th t).pc
+  /-- inside a body the receiver's mutex is held -/
+  holds : ∀ t c rest, (s.th t).todo = c :: rest → InBody (s.th t).pc → s.holder c.recv = some t
+  /-- while the operand is being read its mutex is held and the snapshot IS the operand's data -/
+  snap : ∀ t c rest, (s.th t).todo = c :: rest → (s.th t).pc = .snapHeld →
+    ∃ o, c.operand = some o ∧ s.holder o = some t ∧ (s.th t).opLoc = s.data o
+  /-- what the delegate read is still the receiver's data when it writes -/
+  fresh : ∀ t c rest, (s.th t).todo = c :: rest → (s.th t).pc = .readDone → (s.th t).loc = s.data c.recv
+  /-- per wrapper: its data is the sequential run of the calls on it, in log order -/
+  lin : ∀ m, Lin (d0 m) (onRecv m s.log) (s.data m)
+  order : ∀ t, (mine t s.log).map (·.call) ++ pending s t = progs t
+  res : ∀ t, (s.th t).res = (mine t s.log).map (·.r)
+
+theorem linInv_init (d0 : Nat → D) (dflt : D) (progs : Nat → List (Call D R))
+    (h : ∀ t, ∀ c ∈ progs t, Good c) : LinInv d0 progs (init d0 dflt progs) where
+  good := h
+  pcs := fun _ => Or.inl rfl
+  holds := fun t c rest _ hb => by simp [init, InBody] at hb
+  snap := fun t c rest _ hb => by simp [init] at hb
+  fresh := fun t c rest _ hb => by simp [init] at hb
+  lin := fun m => rfl
+  order := fun t => by simp [init, mine, pending]
+  res := fun t => by simp [init, mine]
+
+/-- rebuild the invariant after a step of thread `t` that touches neither data nor log -/
+theorem linInv_frame {d0 : Nat → D} {progs : Nat → List (Call D R)} {s : State D R} {t : Nat}
+    (inv : LinInv d0 progs s) (T' : Thread D R) (h' : Nat → Option Nat)
+    (hsub : ∀ c' ∈ T'.todo, c' ∈ (s.th t).todo) (hpc : OkPc T'.pc)
+    (hpend : (match T'.pc with | .written => T'.todo.tail | _ => T'.todo) = pending s t)
+    (hres : T'.res = (s.th t).res)
+    (hothers : ∀ m t', t' ≠ t → s.holder m = some t' → h' m = some t')
+    (hholds : ∀ c1 rest1, T'.todo = c1 :: rest1 → InBody T'.pc → h' c1.recv = some t)
+    (hsnap : ∀ c1 rest1, T'.todo = c1 :: rest1 → T'.pc = .snapHeld → ∃ o, c1.operand = some o ∧ h' o = some t ∧ T'.opLoc = s.data o)
+    (hfresh : ∀ c1 rest1, T'.todo = c1 :: rest1 → T'.pc = .readDone → T'.loc = s.data c1.recv) :
+    LinInv d0 progs { holder := h', data := s.data, th := upd s.th t T', log := s.log } := by
+  refine ⟨?_, ?_, ?_, ?_, ?_, inv.lin, ?_, ?_⟩
+  · intro t' c' hc'
+    by_cases e : t' = t
+    · subst e; simp only [upd_same] at hc'; exact inv.good t' c' (hsub c' hc')
+    · simp only [upd_other _ _ e] at hc'; exact inv.good t' c' hc'
+  · intro t'
+    by_cases e : t' = t
+    · subst e; simp only [upd_same]; exact hpc
+    · simp only [upd_other _ _ e]; exact inv.pcs t'
+  · intro t' c1 rest1 h1 h2
+    by_cases e : t' = t
+    · subst e; simp only [upd_same] at h1 h2; exact hholds c1 rest1 h1 h2
+    · simp only [upd_other _ _ e] at h1 h2; exact hothers _ t' e (inv.holds t' c1 rest1 h1 h2)
+  · intro t' c1 rest1 h1 h2
+    by_cases e : t' = t
+    · subst e; simp only [upd_same] at h1 h2 ⊢; exact hsnap c1 rest1 h1 h2
+    · simp only [upd_other _ _ e] at h1 h2 ⊢
+      obtain ⟨o, ho1, ho2, ho3⟩ := inv.snap t' c1 rest1 h1 h2
+      exact ⟨o, ho1, hothers o t' e ho2, ho3⟩
+  · intro t' c1 rest1 h1 h2
+    by_cases e : t' = t
+    · subst e; simp only [upd_same] at h1 h2 ⊢; exact hfresh c1 rest1 h1 h2
+    · simp only [upd_other _ _ e] at h1 h2 ⊢; exact inv.fresh t' c1 rest1 h1 h2
+  · intro t'
+    by_cases e : t' = t
+    · subst e
+      have := inv.order t'
+      simp only [pending, upd_same]
+      rw [hpend]; exact this
+    · have := inv.order t'
+      simp only [pending, upd_other _ _ e]
+      exact this
+  · intro t'
+    by_cases e : t' = t
+    · subst e; simp only [upd_same]; rw [hres]; exact inv.res t'
+    · simp only [upd_other _ _ e]; exact inv.res t'
+
+theorem linInv_acquire {d0 : Nat → D} {progs : Nat → List (Call D R)} {s s' : State D R} {t : Nat}
+    {c : Call D R} {rest : List (Call D R)} (inv : LinInv d0 progs s) (htodo : (s.th t).todo = c :: rest)
+    (hpc : (s.th t).pc = .start ∨ (s.th t).pc = .snapped)
+    (hs : acquireRecv s t (s.th t) c = some s') : LinInv d0 progs s' := by
+  obtain ⟨hlive, hl, hol⟩ := inv.good t c (by rw [htodo]; exact List.mem_cons_self)
+  have hpend : (s.th t).todo = pending s t := by
+    rcases hpc with h | h <;> simp [pending, h]
+  rcases acquireRecv_some hs with ⟨_, hfree, rfl⟩ | ⟨hl', _⟩
+  · refine linInv_frame inv _ _ (fun c' hc' => hc') (by simp [OkPc, hlive.rounds]) ?_ rfl ?_ ?_ ?_ ?_
+    · simp only [hlive.rounds]; exact hpend
+    · intro m t' hne hm
+      have : m ≠ c.recv := fun e => by rw [e, hfree] at hm; cases hm
+      simpa only [upd_other _ _ this] using hm
+    · intro c1 rest1 h1 _
+      simp only [htodo] at h1; injection h1 with hc _; subst hc; simp
+    · intro c1 rest1 _ h2; simp [hlive.rounds] at h2
+    · intro c1 rest1 _ h2; simp [hlive.rounds] at h2
+  · rw [hl] at hl'; cases hl'
+
+theorem linInv_step {d0 : Nat → D} {progs : Nat → List (Call D R)} {s s' : State D R} {t : Nat}
+    (inv : LinInv d0 progs s) (hs : step s t = some s') : LinInv d0 progs s' := by
+  unfold step at hs
+  simp only at hs
+  split at hs
+  · cases hs
+  · rename_i c rest htodo
+    obtain ⟨hlive, hl, hol⟩ := inv.good t c (by rw [htodo]; exact List.mem_cons_self)
+    split at hs
+    · -- start
+      rename_i hpc
+      split at hs
+      · rename_i o hsnap
+        have hop := operand_of_snapTarget hsnap
+        rw [hol] at hs
+        simp only [if_true] at hs
+        split at hs
+        · rename_i hfree
+          have hs := Option.some.inj hs
+          subst hs
+          refine linInv_frame inv _ _ (fun c' hc' => hc') (by simp [OkPc]) (by simp [pending, hpc]) rfl ?_ ?_ ?_ ?_
+          · intro m t' hne hm
+            have : m ≠ o := fun e => by rw [e, hfree] at hm; cases hm
+            simpa only [upd_other _ _ this] using hm
+          · intro c1 rest1 _ h2; simp [InBody] at h2
+          · intro c1 rest1 h1 _
+            simp only [htodo] at h1; injection h1 with hc _; subst hc
+            exact ⟨o, hop, by simp, rfl⟩
+          · intro c1 rest1 _ h2; simp at h2
+        · cases hs
+      · exact linInv_acquire inv htodo (Or.inl hpc) hs
+    · -- snapHeld: release the operand
+      rename_i hpc
+      obtain ⟨o', ho1, ho2, ho3⟩ := inv.snap t c rest htodo hpc
+      have hst : c.snapTarget = some o' := by rw [hlive.snapTarget, ho1]
+      rw [hst] at hs
+      simp only [hol, if_true] at hs
+      have hs := Option.some.inj hs
+      subst hs
+      refine linInv_frame inv _ _ (fun c' hc' => hc') (by simp [OkPc]) (by simp [pending, hpc]) rfl ?_ ?_ ?_ ?_
+      · intro m t' hne hm
+        have : m ≠ o' := fun e => by rw [e, ho2] at hm; exact hne (Option.some.inj hm).symm
+        simpa only [upd_other _ _ this] using hm
+      · intro c1 rest1 _ h2; simp [InBody] at h2
+      · intro c1 rest1 _ h2; simp at h2
+      · intro c1 rest1 _ h2; simp at h2
+    · -- snapped
+      rename_i hpc
+      exact linInv_acquire inv htodo (Or.inr hpc) hs
+    · -- held (k+1): not a state of the live protocol
+      rename_i k hpc
+      rcases inv.pcs t with h | h | h | h | h | h <;> rw [hpc] at h <;> first | cases h | (injection h with h; omega)
+    · -- inOp
+      rename_i k hpc
+      rcases inv.pcs t with h | h | h | h | h | h <;> rw [hpc] at h <;> cases h
+    · -- held 0: read the receiver
+      rename_i hpc
+      have hs := Option.some.inj hs
+      subst hs
+      have hh := inv.holds t c rest htodo (Or.inl hpc)
+      refine linInv_frame inv _ _ (fun c' hc' => hc') (by simp [OkPc]) (by simp [pending, hpc]) rfl (fun m t' _ hm => hm) ?_ ?_ ?_
+      · intro c1 rest1 h1 _
+        simp only [htodo] at h1; injection h1 with hc _; subst hc; exact hh
+      · intro c1 rest1 _ h2; simp at h2
+      · intro c1 rest1 h1 _
+        simp only [htodo] at h1; injection h1 with hc _; subst hc; rfl
+    · -- readDone: write the receiver
+      rename_i hpc
+      have hs := Option.some.inj hs
+      subst hs
+      have hh := inv.holds t c rest htodo (Or.inr (Or.inl hpc))
+      have hfresh := inv.fresh t c rest htodo hpc
+      refine ⟨?_, ?_, ?_, ?_, ?_, ?_, ?_, ?_⟩
       · intro t' c' hc'
         by_cases e : t' = t
-        · subst e; simp only [upd_same] at hc'; exact inv.single t' c' hc'
-        · simp only [upd_other _ _ e] at hc'; exact inv.single t' c' hc'
+        · subst e; simp only [upd_same] at hc'; exact inv.good t' c' hc'
+        · simp only [upd_other _ _ e] at hc'; exact inv.good t' c' hc'
       · intro t'
         by_cases e : t' = t
-        · subst e; simp [upd_same]
+        · subst e; simp [upd_same, OkPc]
         · simp only [upd_other _ _ e]; exact inv.pcs t'
-      · intro t' hin'
+      · intro t' c1 rest1 h1 h2
         by_cases e : t' = t
-        · subst e; exact inv.holds t' hin
-        · simp only [inCS, upd_other _ _ e] at hin'; exact inv.holds t' hin'
-      · intro t' hrd
+        · subst e; simp only [upd_same] at h1
+          simp only [htodo] at h1; injection h1 with hc _; subst hc; exact hh
+        · simp only [upd_other _ _ e] at h1 h2; exact inv.holds t' c1 rest1 h1 h2
+      · intro t' c1 rest1 h1 h2
         by_cases e : t' = t
-        · subst e; simp only [upd_same] at hrd; exact Pc.noConfusion hrd
-        · simp only [upd_other _ _ e] at hrd; rw [others t' e hin] at hrd; exact Pc.noConfusion hrd
-      · simp only [hrecv, upd_same]
-        have := lin_snoc (d := d0) { tid := t, call := c, op := (s.th t).opLoc, r := (c.f (s.th t).loc (s.th t).opLoc).2 } inv.lin
-          (by simp only [hfresh])
-        simp only [hfresh] at this ⊢
-        exact this
+        · subst e; simp [upd_same] at h2
+        · simp only [upd_other _ _ e] at h1 h2 ⊢
+          obtain ⟨o, ho1, ho2, ho3⟩ := inv.snap t' c1 rest1 h1 h2
+          have : o ≠ c.recv := fun eo => by rw [eo, hh] at ho2; exact e (Option.some.inj ho2).symm
+          exact ⟨o, ho1, ho2, by rw [upd_other _ _ this]; exact ho3⟩
+      · intro t' c1 rest1 h1 h2
+        by_cases e : t' = t
+        · subst e; simp [upd_same] at h2
+        · simp only [upd_other _ _ e] at h1 h2 ⊢
+          have hh' := inv.holds t' c1 rest1 h1 (Or.inr (Or.inl h2))
+          have : c1.recv ≠ c.recv := fun eo => by rw [eo, hh] at hh'; exact e (Option.some.inj hh').symm
+          rw [upd_other _ _ this]; exact inv.fresh t' c1 rest1 h1 h2
+      · intro m
+        by_cases em : m = c.recv
+        · subst em
+          show Lin (d0 c.recv) (onRecv c.recv (s.log ++ [{ tid := t, call := c, op := (s.th t).opLoc, r := (c.f (s.th t).loc (s.th t).opLoc).2 }]))
+            (upd s.data c.recv (c.f (s.th t).loc (s.th t).opLoc).1 c.recv)
+          rw [onRecv_snoc_same c.recv s.log _ rfl]
+          simp only [upd_same]
+          have := lin_snoc (d := d0 c.recv) { tid := t, call := c, op := (s.th t).opLoc, r := (c.f (s.th t).loc (s.th t).opLoc).2 }
+            (inv.lin c.recv) (by simp only [hfresh])
+          simp only [hfresh] at this ⊢
+          exact this
+        · show Lin (d0 m) (onRecv m (s.log ++ [{ tid := t, call := c, op := (s.th t).opLoc, r := (c.f (s.th t).loc (s.th t).opLoc).2 }]))
+            (upd s.data c.recv (c.f (s.th t).loc (s.th t).opLoc).1 m)
+          rw [onRecv_snoc_other m s.log _ (fun h => em h.symm)]
+          simp only [upd_other _ _ em]
+          exact inv.lin m
       · intro t'
         by_cases e : t' = t
         · subst e
@@ -220,290 +596,38 @@ theorem linInv_step {w : Nat} {d0 : D} {progs : Nat → List (Call D R)} {s s' :
         · simp only [upd_other _ _ e]
           rw [mine_snoc_other t' s.log _ (fun h => e h.symm)]
           exact inv.res t'
-    · -- written: release, next call
+    · -- written: release the receiver, next call
       rename_i hpc
+      simp only [hl, if_true] at hs
       have hs := Option.some.inj hs
       subst hs
-      have hin : inCS s t := by simp [inCS, hpc]
-      refine ⟨?_, ?_, ?_, ?_, ?_, ?_, ?_⟩
-      · intro t' c' hc'
-        by_cases e : t' = t
-        · subst e; simp only [upd_same] at hc'; exact inv.single t' c' (by rw [htodo]; exact List.mem_cons_of_mem _ hc')
-        · simp only [upd_other _ _ e] at hc'; exact inv.single t' c' hc'
-      · intro t'
-        by_cases e : t' = t
-        · subst e; simp [upd_same]
-        · simp only [upd_other _ _ e]; exact inv.pcs t'
-      · intro t' hin'
-        by_cases e : t' = t
-        · subst e; simp [inCS] at hin'
-        · simp only [inCS, upd_other _ _ e] at hin'; exact absurd (others t' e hin) hin'
-      · intro t' hrd
-        by_cases e : t' = t
-        · subst e; simp only [upd_same] at hrd; exact Pc.noConfusion hrd
-        · simp only [upd_other _ _ e] at hrd; rw [others t' e hin] at hrd; exact Pc.noConfusion hrd
-      · exact inv.lin
-      · intro t'
-        by_cases e : t' = t
-        · subst e
-          have := inv.order t'
-          simp only [pending, hpc, htodo, List.tail_cons] at this
-          simp only [pending, upd_same]
-          exact this
-        · have := inv.order t'
-          simp only [pending, upd_other _ _ e]
-          exact this
-      · intro t'
-        by_cases e : t' = t
-        · subst e; simp only [upd_same]; exact inv.res t'
-        · simp only [upd_other _ _ e]; exact inv.res t'
+      have hh := inv.holds t c rest htodo (Or.inr (Or.inr hpc))
+      refine linInv_frame inv _ _ (fun c' hc' => by rw [htodo]; exact List.mem_cons_of_mem _ hc') (by simp [OkPc])
+        (by simp [pending, hpc, htodo]) rfl ?_ ?_ ?_ ?_
+      · intro m t' hne hm
+        have : m ≠ c.recv := fun e => by rw [e, hh] at hm; exact hne (Option.some.inj hm).symm
+        simpa only [upd_other _ _ this] using hm
+      · intro c1 rest1 _ h2; simp [InBody] at h2
+      · intro c1 rest1 _ h2; simp at h2
+      · intro c1 rest1 _ h2; simp at h2
 
-theorem linInv_reach {w : Nat} {d0 : Nat → D} {dflt : D} {progs : Nat → List (Call D R)}
-    (h : ∀ t, ∀ c ∈ progs t, Single w c) {s : State D R} (hr : Reach (init d0 dflt progs) s) :
-    LinInv w (d0 w) progs s := by
+theorem linInv_reach {d0 : Nat → D} {dflt : D} {progs : Nat → List (Call D R)}
+    (h : ∀ t, ∀ c ∈ progs t, Good c) {s : State D R} (hr : Reach (init d0 dflt progs) s) :
+    LinInv d0 progs s := by
   induction hr with
-  | refl => exact linInv_init w d0 dflt progs h
+  | refl => exact linInv_init d0 dflt progs h
   | step t _ hs ih => exact linInv_step ih hs
 
-theorem reach_of_runSched {s0 : State D R} : ∀ (sched : List Nat) {s s' : State D R}, Reach s0 s → runSched s sched = some s' → Reach s0 s'
-  | [], s, s', hr, h => by simp only [runSched] at h; exact (Option.some.inj h) ▸ hr
-  | t :: ts, s, s', hr, h => by
-    simp only [runSched] at h
-    split at h
-    · rename_i s1 hs1
-      exact reach_of_runSched ts (Reach.step t hr hs1) h
-    · cases h
+/-- thread `t` is using wrapper `m`: inside a body on it, or reading it as an operand -/
+def Uses (s : State D R) (t m : Nat) : Prop :=
+  ∃ c rest, (s.th t).todo = c :: rest ∧
+    ((InBody (s.th t).pc ∧ c.recv = m) ∨ ((s.th t).pc = .snapHeld ∧ c.operand = some m))
 
-/-! ### deadlock freedom when no operand is a wrapper -/
-
-structure DlInv (n : Nat) (s : State D R) : Prop where
-  ops : ∀ t, ∀ c ∈ (s.th t).todo, c.operand = none
-  idle : ∀ t, n ≤ t → (s.th t).todo = []
-  owner : ∀ m t, s.holder m = some t →
-    ∃ c rest, (s.th t).todo = c :: rest ∧ c.recv = m ∧ c.locked = true ∧ (s.th t).pc ≠ .start
-
-theorem dlInv_init (n : Nat) (d0 : Nat → D) (dflt : D) (progs : Nat → List (Call D R))
-    (hops : ∀ t, ∀ c ∈ progs t, c.operand = none) (hidle : ∀ t, n ≤ t → progs t = []) :
-    DlInv n (init d0 dflt progs) where
-  ops := hops
-  idle := hidle
-  owner := fun m t h => by simp [init] at h
-
-/-- a thread inside a method body whose operand is not a wrapper can always move -/
-theorem enabled_inCS {s : State D R} {t : Nat} {c : Call D R} {rest : List (Call D R)}
-    (htodo : (s.th t).todo = c :: rest) (hop : c.operand = none) (hpc : (s.th t).pc ≠ .start) :
-    (step s t).isSome = true := by
-  unfold step
-  simp only [htodo]
-  split
-  · rename_i h; exact absurd h hpc
-  · simp [hop]
-  · simp [hop]
-  · rfl
-  · rfl
-  · rfl
-
-theorem dlInv_step {n : Nat} {s s' : State D R} {t : Nat} (inv : DlInv n s) (hs : step s t = some s') : DlInv n s' := by
-  unfold step at hs
-  simp only at hs
-  split at hs
-  · cases hs
-  · rename_i c rest htodo
-    have hop : c.operand = none := inv.ops t c (by rw [htodo]; exact List.mem_cons_self)
-    split at hs
-    · -- start
-      rename_i hpc
-      have notOwner : ∀ m, s.holder m ≠ some t := by
-        intro m h
-        obtain ⟨_, _, _, _, _, hne⟩ := inv.owner m t h
-        exact hne hpc
-      split at hs
-      · rename_i hlock
-        split at hs
-        · rename_i hfree
-          have hs := Option.some.inj hs
-          subst hs
-          refine ⟨?_, ?_, ?_⟩
-          · intro t' c' hc'
-            by_cases e : t' = t
-            · subst e; simp only [upd_same] at hc'; exact inv.ops t' c' hc'
-            · simp only [upd_other _ _ e] at hc'; exact inv.ops t' c' hc'
-          · intro t' hn
-            by_cases e : t' = t
-            · subst e; simp only [upd_same]; exact inv.idle t' hn
-            · simp only [upd_other _ _ e]; exact inv.idle t' hn
-          · intro m t' hm
-            by_cases em : m = c.recv
-            · subst em
-              simp only [upd_same] at hm
-              have := Option.some.inj hm
-              subst this
-              exact ⟨c, rest, by simp [upd_same, htodo], rfl, hlock, by simp [upd_same]⟩
-            · simp only [upd_other _ _ em] at hm
-              have hne : t' ≠ t := fun e => notOwner m (e ▸ hm)
-              obtain ⟨c', rest', h1, h2, h3, h4⟩ := inv.owner m t' hm
-              exact ⟨c', rest', by simp [upd_other _ _ hne, h1], h2, h3, by simp [upd_other _ _ hne, h4]⟩
-        · cases hs
-      · have hs := Option.some.inj hs
-        subst hs
-        refine ⟨?_, ?_, ?_⟩
-        · intro t' c' hc'
-          by_cases e : t' = t
-          · subst e; simp only [upd_same] at hc'; exact inv.ops t' c' hc'
-          · simp only [upd_other _ _ e] at hc'; exact inv.ops t' c' hc'
-        · intro t' hn
-          by_cases e : t' = t
-          · subst e; simp only [upd_same]; exact inv.idle t' hn
-          · simp only [upd_other _ _ e]; exact inv.idle t' hn
-        · intro m t' hm
-          have hne : t' ≠ t := fun e => notOwner m (e ▸ hm)
-          obtain ⟨c', rest', h1, h2, h3, h4⟩ := inv.owner m t' hm
-          exact ⟨c', rest', by simp [upd_other _ _ hne, h1], h2, h3, by simp [upd_other _ _ hne, h4]⟩
-    · -- held (k+1) with a non-wrapper operand
-      rename_i k hpc
-      rw [hop] at hs
-      have hs := Option.some.inj hs
-      subst hs
-      refine ⟨?_, ?_, ?_⟩
-      · intro t' c' hc'
-        by_cases e : t' = t
-        · subst e; simp only [upd_same] at hc'; exact inv.ops t' c' hc'
-        · simp only [upd_other _ _ e] at hc'; exact inv.ops t' c' hc'
-      · intro t' hn
-        by_cases e : t' = t
-        · subst e; simp only [upd_same]; exact inv.idle t' hn
-        · simp only [upd_other _ _ e]; exact inv.idle t' hn
-      · intro m t' hm
-        obtain ⟨c', rest', h1, h2, h3, h4⟩ := inv.owner m t' hm
-        by_cases e : t' = t
-        · subst e; exact ⟨c', rest', by simp [upd_same, h1], h2, h3, by simp [upd_same]⟩
-        · exact ⟨c', rest', by simp [upd_other _ _ e, h1], h2, h3, by simp [upd_other _ _ e, h4]⟩
-    · -- inOp with a non-wrapper operand
-      rename_i k hpc
-      rw [hop] at hs
-      have hs := Option.some.inj hs
-      subst hs
-      refine ⟨?_, ?_, ?_⟩
-      · intro t' c' hc'
-        by_cases e : t' = t
-        · subst e; simp only [upd_same] at hc'; exact inv.ops t' c' hc'
-        · simp only [upd_other _ _ e] at hc'; exact inv.ops t' c' hc'
-      · intro t' hn
-        by_cases e : t' = t
-        · subst e; simp only [upd_same]; exact inv.idle t' hn
-        · simp only [upd_other _ _ e]; exact inv.idle t' hn
-      · intro m t' hm
-        obtain ⟨c', rest', h1, h2, h3, h4⟩ := inv.owner m t' hm
-        by_cases e : t' = t
-        · subst e; exact ⟨c', rest', by simp [upd_same, h1], h2, h3, by simp [upd_same]⟩
-        · exact ⟨c', rest', by simp [upd_other _ _ e, h1], h2, h3, by simp [upd_other _ _ e, h4]⟩
-    · -- held 0
-      rename_i hpc
-      have hs := Option.some.inj hs
-      subst hs
-      refine ⟨?_, ?_, ?_⟩
-      · intro t' c' hc'
-        by_cases e : t' = t
-        · subst e; simp only [upd_same] at hc'; exact inv.ops t' c' hc'
-        · simp only [upd_other _ _ e] at hc'; exact inv.ops t' c' hc'
-      · intro t' hn
-        by_cases e : t' = t
-        · subst e; simp only [upd_same]; exact inv.idle t' hn
-        · simp only [upd_other _ _ e]; exact inv.idle t' hn
-      · intro m t' hm
-        obtain ⟨c', rest', h1, h2, h3, h4⟩ := inv.owner m t' hm
-        by_cases e : t' = t
-        · subst e; exact ⟨c', rest', by simp [upd_same, h1], h2, h3, by simp [upd_same]⟩
-        · exact ⟨c', rest', by simp [upd_other _ _ e, h1], h2, h3, by simp [upd_other _ _ e, h4]⟩
-    · -- readDone
-      rename_i hpc
-      have hs := Option.some.inj hs
-      subst hs
-      refine ⟨?_, ?_, ?_⟩
-      · intro t' c' hc'
-        by_cases e : t' = t
-        · subst e; simp only [upd_same] at hc'; exact inv.ops t' c' hc'
-        · simp only [upd_other _ _ e] at hc'; exact inv.ops t' c' hc'
-      · intro t' hn
-        by_cases e : t' = t
-        · subst e; simp only [upd_same]; exact inv.idle t' hn
-        · simp only [upd_other _ _ e]; exact inv.idle t' hn
-      · intro m t' hm
-        obtain ⟨c', rest', h1, h2, h3, h4⟩ := inv.owner m t' hm
-        by_cases e : t' = t
-        · subst e; exact ⟨c', rest', by simp [upd_same, h1], h2, h3, by simp [upd_same]⟩
-        · exact ⟨c', rest', by simp [upd_other _ _ e, h1], h2, h3, by simp [upd_other _ _ e, h4]⟩
-    · -- written: release
-      rename_i hpc
-      have hs := Option.some.inj hs
-      subst hs
-      refine ⟨?_, ?_, ?_⟩
-      · intro t' c' hc'
-        by_cases e : t' = t
-        · subst e; simp only [upd_same] at hc'; exact inv.ops t' c' (by rw [htodo]; exact List.mem_cons_of_mem _ hc')
-        · simp only [upd_other _ _ e] at hc'; exact inv.ops t' c' hc'
-      · intro t' hn
-        by_cases e : t' = t
-        · subst e; have := inv.idle t' hn; rw [htodo] at this; cases this
-        · simp only [upd_other _ _ e]; exact inv.idle t' hn
-      · intro m t' hm
-        have hm0 : s.holder m = some t' ∧ (c.locked = true → m ≠ c.recv) := by
-          by_cases hl : c.locked = true
-          · simp only [hl, if_true] at hm
-            by_cases em : m = c.recv
-            · subst em; simp [upd_same] at hm
-            · simp only [upd_other _ _ em] at hm; exact ⟨hm, fun _ => em⟩
-          · simp only [hl] at hm; exact ⟨hm, fun h => absurd h hl⟩
-        obtain ⟨c', rest', h1, h2, h3, h4⟩ := inv.owner m t' hm0.1
-        by_cases e : t' = t
-        · subst e
-          rw [htodo] at h1
-          injection h1 with hc hr
-          subst hc
-          exact absurd h2 (fun h => hm0.2 h3 h.symm)
-        · exact ⟨c', rest', by simp [upd_other _ _ e, h1], h2, h3, by simp [upd_other _ _ e, h4]⟩
-
-theorem dlInv_reach {n : Nat} {d0 : Nat → D} {dflt : D} {progs : Nat → List (Call D R)}
-    (hops : ∀ t, ∀ c ∈ progs t, c.operand = none) (hidle : ∀ t, n ≤ t → progs t = [])
-    {s : State D R} (hr : Reach (init d0 dflt progs) s) : DlInv n s := by
-  induction hr with
-  | refl => exact dlInv_init n d0 dflt progs hops hidle
-  | step t _ hs ih => exact dlInv_step ih hs
-
-theorem not_deadlocked_of_inv {n : Nat} {s : State D R} (inv : DlInv n s) : deadlocked n s = false := by
-  cases hd : deadlocked n s
-  · rfl
-  · exfalso
-    simp only [deadlocked, Bool.and_eq_true, List.any_eq_true, List.all_eq_true, List.mem_range] at hd
-    obtain ⟨⟨t, htn, hunf⟩, hall⟩ := hd
-    simp only [unfinished, Bool.not_eq_true', List.isEmpty_eq_false_iff] at hunf
-    obtain ⟨c, rest, htodo⟩ := List.exists_cons_of_ne_nil hunf
-    have hop : c.operand = none := inv.ops t c (by rw [htodo]; exact List.mem_cons_self)
-    have hb := hall t htn
-    simp only [blocked, Option.isNone_iff_eq_none] at hb
-    by_cases hpc : (s.th t).pc = .start
-    · -- blocked at Lock(): the owner is inside its body and can move
-      unfold step at hb
-      simp only [htodo, hpc] at hb
-      split at hb
-      · split at hb
-        · cases hb
-        · rename_i t' hown
-          obtain ⟨c', rest', h1, h2, h3, h4⟩ := inv.owner _ t' hown
-          have ht'n : t' < n := by
-            rcases Nat.lt_or_ge t' n with h | h
-            · exact h
-            · have := inv.idle t' h; rw [h1] at this; cases this
-          have hop' : c'.operand = none := inv.ops t' c' (by rw [h1]; exact List.mem_cons_self)
-          have hen := enabled_inCS h1 hop' h4
-          have hb' := hall t' ht'n
-          simp only [blocked] at hb'
-          rw [Option.isNone_iff_eq_none] at hb'
-          rw [hb'] at hen
-          cases hen
-      · cases hb
-    · have hen := enabled_inCS htodo hop hpc
-      rw [hb] at hen
-      cases hen
+theorem uses_holder {d0 : Nat → D} {progs : Nat → List (Call D R)} {s : State D R} (inv : LinInv d0 progs s)
+    {t m : Nat} (h : Uses s t m) : s.holder m = some t := by
+  obtain ⟨c, rest, h1, ⟨h2, rfl⟩ | ⟨h2, h3⟩⟩ := h
+  · exact inv.holds t c rest h1 h2
+  · obtain ⟨o, ho1, ho2, _⟩ := inv.snap t c rest h1 h2
+    rw [h3] at ho1; cases ho1; exact ho2
 
 end Dawgs.C13.Lts
